@@ -400,6 +400,15 @@ theorem maximize_optimal {G : Type} [Neg G] (scipy : (X → K) → Option (X →
   have := hmin (fun x => -f x) (g.map (fun g x => -g x)) x0 z hz
   simpa [maximizeVia, wrapMinimize] using this
 
+/-- **Keywords are forwarded as given:** `minimize`/`maximize` hand SciPy the `method` they were given
+    (`None` stays `None`: SciPy resolves the default from bounds *and* constraints), and every keyword
+    argument unchanged and in order; `maximize` makes the same call as `minimize`. -/
+theorem wrapper_forwards_call (m : Option String) (hg : Bool) (kw : List String) :
+    (minimizeCall m hg kw).method = m ∧ (minimizeCall m hg kw).kwargs = kw ∧ (minimizeCall m hg kw).hasJac = hg ∧
+    maximizeCall m hg kw = minimizeCall m hg kw := ⟨rfl, rfl, rfl, rfl⟩
+
+example : (minimizeCall none true ["bounds", "constraints"]).method = none := rfl
+
 /-- **`L_BFGS_B` status table:** success exactly for `warnflag = 0`; the message is SciPy's `task`
     for every flag other than 0 and 1. -/
 theorem lbfgsb_status_table (wf : ℤ) (task : String) :
